@@ -188,7 +188,9 @@ FULL = {
 SMALL = {
     "simulation": {"markets": ["A", "B"], "agents": ["T", "S"], "sessions": [
         {"sessionName": 0, "iterationSteps": 6, "withOrderPlacement": True, "withOrderExecution": True,
-         "withPrint": False, "maxNormalOrders": 4}]},
+         "withPrint": False, "maxNormalOrders": 4, "maxHifreqOrders": 2, "hifreqSubmitRate": 0.5,
+         "events": ["Nudge"]}]},
+    "Nudge": {"class": "StepEndNudge"},
     "A": {"class": "Market", "tickSize": 1, "marketPrice": 100.0},
     "B": {"class": "Market", "tickSize": 1, "marketPrice": 200.0, "fundamentalVolatility": 0.02},
     "T": {"class": "TestAgent", "numAgents": 5, "markets": ["B", "A"], "assetVolume": [1, 100], "cashAmount": 1000},
@@ -198,10 +200,21 @@ SMALL = {
 }
 
 
-def observe_run(pams, settings, seed):
+def observe_run(pams, settings, seed, with_logger=True):
     """run one simulation on the given (freshly imported) pams; return the list of observations."""
     from pams.logs import Logger
+    from pams.events import EventABC, EventHook
     obs = []
+
+    class StepEndNudge(EventABC):
+        """user event acting at the end of every market step (changes the state the run evolves from)"""
+
+        def hook_registration(self):
+            return [EventHook(event=self, hook_type="market", is_before=False)]
+
+        def hooked_after_step_for_market(self, simulator, market):
+            if market.get_time() % 2 == 1 and market.market_id == 0:
+                market.change_fundamental_price(scale=1.01)
 
     class Rec(Logger):
         def process(self, logs):
@@ -213,7 +226,9 @@ def observe_run(pams, settings, seed):
                 obs.append((type(lg).__name__,) + tuple(sorted(d.items())))
             super().process(logs)
     given = copy.deepcopy(settings)
-    runner = pams.runners.SequentialRunner(settings=given, prng=_random.Random(seed), logger=Rec())
+    runner = pams.runners.SequentialRunner(settings=given, prng=_random.Random(seed),
+                                           logger=Rec() if with_logger else None)
+    runner.class_register(StepEndNudge)
     runner._setup()
     runner._run()
     sim = runner.simulator
@@ -303,6 +318,15 @@ class Reproducible(Harness):
                 g.require(_same(a, b), "C07.outcome-differs",
                           f"observation #{k} differs between the reference run and the repeated run: {str(a)[:160]} vs {str(b)[:160]}")
             g.observe(len(ref))
+            # ... and whether a logger is attached is not part of (configuration, seed): series and holdings agree
+            G.epoch = 3
+            quiet, _ = observe_run(pams, settings, case["seed"], with_logger=False)
+            tail_ref = [o for o in ref if len(o) > 1 and isinstance(o[1], str) and (o[1].startswith("get_") or o[1] == "cash")]
+            quiet = [o for o in quiet if len(o) > 1 and isinstance(o[1], str)]
+            g.require(len(quiet) == len(tail_ref), "C07.outcome-depends-on-logger")
+            for a, b in zip(tail_ref, quiet):
+                g.require(_same(a, b), "C07.outcome-depends-on-logger",
+                          f"series / holdings differ between a run with and a run without a logger: {str(a)[:120]} vs {str(b)[:120]}")
         finally:
             G.restore()
 
